@@ -15,6 +15,16 @@ CHECKS = {
          "Every emitted datagram of each baseline is re-delivered after each delay of a list (pairs in thorough) incl. forced key updates: per frame type the receiver must not process more frames than the sender put on the wire (harness decoder). Every (datagram x mutation) corrupted copy is injected and the run must be application-equivalent to the uninjected run (wire-identical after the handshake). Stateless-reset probes (exact / every bit flipped / other CID / other address / too short), Version Negotiation and forged Retry packets are injected at every step index against both roles.",
          "Model TLS: keyed 128-bit tag stands in for the AEAD; cross-connection splices are decided under C09.",
          "DESIGN.md#c04"),
+ "C08": ("E3", "fault_enumeration",
+         "exhaustive close/crash-point enumeration on real endpoints with loss masks after the close",
+         "For every step index of each baseline run and each of {client close, server close, both, client black-holed, server black-holed}, combined with every drop mask over the first datagrams after the close and duplication of the close packet, the termination oracles are evaluated: ConnectionLost at most once and never for the local closer, the peer's code and reason over a lossless path, drained within 3 PTO (probe value at close), exactly one Drained endpoint event, endpoint forgets the connection and stale datagrams do not route, idle timeout bounds, keep-alive prevents timeout, and CONNECTION_CLOSE is emitted in the same settle step as close() whatever the congestion / pacing / flow-control state.",
+         "3*PTO read through the probe hook at close time; server with unvalidated peer and exhausted amplification budget exempt from the prompt-close oracle.",
+         "DESIGN.md#c08"),
+ "C19": ("E5", "exploration",
+         "bounded exhaustive enumeration of transmit shapes over real loopback sockets",
+         "Every payload length, GSO segment size x count x last-segment shape, ECN codepoint, explicit source address, receive-buffer shape and GRO on/off, on four socket-pair families, is sent through quinn-udp and fully received before the next; the oracle is the Transmit itself (segments byte-identical, in order, stride splits batches, ecn/addr/dst_ip conveyed). Offload-failure fallback is triggered from user space and the following plain transmits are checked.",
+         "Kernel behaviour is not owned: a silent receive is retried and then recorded as inconclusive, only a received-but-wrong result is a violation; memory safety of the unsafe cmsg code as such is outside this family.",
+         "DESIGN.md#c19"),
  "C02": ("E3+E2", "fault_enumeration",
          "exhaustive drop-mask enumeration + deviation-bounded stateless exploration of real endpoints",
          "Bounded liveness decided by running the real client and server endpoints under every drop subset of the first K datagrams (both directions) for a list of transport configurations and event-driven workloads, plus every <=k dup/delay/drop deviation in a window; each execution must complete the workload with every stream delivered and acknowledged.",
@@ -48,7 +58,7 @@ def main():
             na.append({"property_id": pid, "reason": REASONS_NA.get(pid, "check not built yet in this round (bounded exhaustive exploration is applicable; see DESIGN.md); not claimed until its check exists and passes on the unchanged tree")})
     m = {
         "version": 1,
-        "setup_cmd": "cd /verif/harness && CARGO_NET_OFFLINE=true cargo build --offline --bins",
+        "setup_cmd": "for d in harness harness-udp; do (cd /verif/$d && CARGO_NET_OFFLINE=true cargo build --offline --bins) || exit 1; done",
         "hooks": {
             "guard": "cargo feature __verif of quinn-proto",
             "enable": "the harness crate depends on /repo/quinn-proto by path with features=[\"__verif\"]; no RUSTFLAGS needed",
